@@ -614,7 +614,7 @@ var c10EPaths = []string{"update1", "updcol1", "upd_map", "upd_map", "updcols_ma
 	"save", "save", "create", "create_slice", "create_batches", "create_map", "create_maps", "upsert_all", "upsert_slice", "upsert_cols", "save_slice"}
 
 func genC10E(rng *rand.Rand, r *Result) *c10E {
-	db := c10OpenDry()
+	db := c10ParseDB()
 	var s c10Sch
 	for {
 		s = genC10Schema(rng, false)
